@@ -71,6 +71,8 @@ Section Model.
 Variables V Q A GV Val : Type.
 Variable dV : V.
 Variable dQ : Q.
+Variable renorm : Q -> Q.              (* what Rotation.from_quat does to a stored quaternion (re-normalisation):
+                                          the identity in exact arithmetic, not always in binary64 *)
 Variable key_of : A -> option nat.     (* src.field_func identity; None = undefined *)
 Variable dim_ok : A -> bool.           (* dimension / diameter / vertices not None *)
 Variable exc_ok : A -> bool.           (* polarization / current / moment not None *)
@@ -102,8 +104,10 @@ Fixpoint upd (i : nat) (f : obj -> obj) (st : store) : store :=
 
 Definition tile_pos (k : nat) (o : obj) : obj :=
   mkObj (o_pos o ++ repeat (last (o_pos o) dV) k) (o_ori o) (o_attr o).
+(* obj._orientation = R.from_quat(np.concatenate((obj._orientation.as_quat(), tile_orient))): EVERY row
+   goes through from_quat again *)
 Definition tile_ori (k : nat) (o : obj) : obj :=
-  mkObj (o_pos o) (o_ori o ++ repeat (last (o_ori o) dQ) k) (o_attr o).
+  mkObj (o_pos o) (map renorm (o_ori o ++ repeat (last (o_ori o) dQ) k)) (o_attr o).
 Definition tile_obj (k : nat) (o : obj) : obj := tile_ori k (tile_pos k o).
 Definition trim_pos (m0 : nat) (o : obj) : obj := mkObj (firstn m0 (o_pos o)) (o_ori o) (o_attr o).
 Definition trim_ori (m0 : nat) (o : obj) : obj := mkObj (o_pos o) (firstn m0 (o_ori o)) (o_attr o).
@@ -378,6 +382,8 @@ Definition wrapper_ok (w : wrapper) (p : list instr) : bool := prog_ok w false f
 
 Definition wf_obj (o : obj) : Prop := length (o_ori o) = length (o_pos o).
 Definition wf_store (st : store) : Prop := Forall wf_obj st.
+(* every stored quaternion is a fixed point of the re-normalisation *)
+Definition fix_store (st : store) : Prop := Forall (fun o => Forall (fun q => renorm q = q) (o_ori o)) st.
 
 End Model.
 
